@@ -381,3 +381,14 @@ Definition request_ok_f (r : request) : bool :=
 
 Definition conform_req3 (d : mdgdata) (r : request) (ext : list (list (Q * Q) * list (Q * Q))) : bool :=
   conform_f d && request_ok_f r && extents_ok ext.
+
+(* ------------------------------------------------------------------ coupling completeness
+   (additive): for every pair (grid of dimension d, grid of dimension d-1) the faces of the
+   first whose centre coincides with a cell centre of the second are exactly the faces an
+   interface between the two grids couples (no interface: no coupled face). *)
+Definition incidence_ok (inc : list (list nat * list nat)) : bool :=
+  forallb (fun p => tags_ok (fst p) (snd p)) inc.
+
+Definition conform_req4 (d : mdgdata) (r : request) (ext : list (list (Q * Q) * list (Q * Q)))
+           (inc : list (list nat * list nat)) : bool :=
+  conform_req3 d r ext && incidence_ok inc.
